@@ -1,10 +1,854 @@
-//! Family `capture` — stub (replaced by the unit that owns this family).
+//! Family `capture` (C16): the real `sys::process::run` (polling waiter, two bounded reader threads,
+//! overflow flag, `join_capture`) against a helper child that is told exactly what to emit.
+//!
+//! Request line (one scenario):
+//! ```text
+//! sc cap=<bytes> poll=<ms> timeout=<ms> out=<c|n|i> err=<c|n|i> reps=<k> hogs=<n> [fixed=<0|1>] | <child token>...
+//! utf8 <hex>                       -> valid | invalid          (`std::str::from_utf8`, ties `validUtf8`)
+//! ```
+//! Child tokens, executed in order by `nvh capture child pidfile=<path> us=<n> <token>...`:
+//! ```text
+//! s<ms>        sleep
+//! o<n><k>      one write_all of the next n bytes of stdout pattern k  (k: a ascii, m 3-byte chars,
+//! e<n><k>      ... of stderr pattern k                                   g 4-byte chars, x invalid)
+//! p            restore the default SIGPIPE disposition (a write to a closed pipe then kills the child)
+//! x<code>      exit(code)        k   kill(getpid(), SIGKILL)        h   hang (sleep for ever)
+//! ```
+//! The patterns are functions of (stream, pattern, offset in the stream), so the harness, the child
+//! and the Lean driver all know every byte; stdout and stderr use different bytes.
+//!
+//! Answer of `run` for a scenario: `obs <outcome>*<count> ... | pid <state>*<count> ...` over the
+//! `reps` repetitions (each with a different sub-millisecond delay before every child write).
+//! Outcomes: `ok:<code|sig>:<out>:<err>` with a stream described as `null`, `full` (exactly the
+//! planned bytes) or `trunc<len>` / `other<len>`; `ole:out|err`; `badutf8:out|err`; `timeout`;
+//! `spawnfail`; `stuck`; `panic`. The model's driver answers `allowed <outcome>...`; the check tests
+//! membership (checks/c16.py). Implementation-level oracle (no model needed), reported as
+//! `ORACLE-FAIL <line> <what>` on stderr: an `ok` whose captured stream is not exactly what the child
+//! was told to write, is above the cap, or is non-null for an uncaptured stream; `success` not equal
+//! to `exit_code == 0`; an exit code that is not the planned one; the child's pid still present
+//! afterwards (running or zombie); a run that does not return.
 
-pub fn main(_args: &[String]) -> i32 {
-    eprintln!("family capture: not built yet");
-    2
+use std::collections::BTreeMap;
+use std::fs::File;
+use std::io::Write;
+use std::os::fd::FromRawFd;
+use std::sync::atomic::{AtomicBool, AtomicUsize, Ordering};
+use std::sync::{Arc, Mutex, mpsc};
+use std::time::Duration;
+
+use naijascript::arena::{Arena, ArenaString};
+use naijascript::process::{
+    OutputPolicy, ProcessCaps, ProcessError, ProcessSpec, ProcessStream, StdinPolicy,
+};
+use naijascript::sys::{self, ProcessRunner};
+
+use crate::util::{self, Rng};
+
+pub fn main(args: &[String]) -> i32 {
+    match args.first().map(String::as_str) {
+        Some("gen") => generate(&args[1..]),
+        Some("run") => run(&args[1..]),
+        Some("child") => child(&args[1..]),
+        _ => {
+            eprintln!(
+                "usage: nvh capture gen --seed S --n N [--mode mix|d16|race] | nvh capture run [--jobs J] < requests | nvh capture child ..."
+            );
+            2
+        }
+    }
 }
 
-/// Constants/tables of the compiled crate this family wants in `nvh dump-tables`
-/// (JSON key, JSON value text).
-pub fn dump_tables(_out: &mut Vec<(String, String)>) {}
+/// Constants of the compiled crate (the private ones are extracted by regex in extract/gen_capture.py).
+pub fn dump_tables(out: &mut Vec<(String, String)>) {
+    let caps = ProcessCaps::defaults();
+    out.push(("capture_default_cap".into(), caps.max_capture_bytes_per_stream.to_string()));
+    out.push(("capture_default_poll_ms".into(), caps.wait_poll_ms.to_string()));
+    out.push(("capture_default_timeout_ms".into(), caps.default_timeout_ms.to_string()));
+    out.push(("capture_max_timeout_ms".into(), caps.max_timeout_ms.to_string()));
+}
+
+// ------------------------------------------------------------------------------------------------
+// patterns
+
+const EURO: [u8; 3] = [0xE2, 0x82, 0xAC]; // "€"
+const WON: [u8; 3] = [0xE2, 0x82, 0xA9]; // "₩"
+const GRIN: [u8; 4] = [0xF0, 0x9F, 0x98, 0x80];
+const BEAM: [u8; 4] = [0xF0, 0x9F, 0x98, 0x81];
+
+/// Byte at offset `off` of stream `err` under pattern `k`.
+fn pat_byte(err: bool, k: u8, off: usize) -> u8 {
+    match k {
+        b'a' => (if err { b'A' } else { b'a' }) + (off % 26) as u8,
+        b'm' => (if err { WON } else { EURO })[off % 3],
+        b'g' => (if err { BEAM } else { GRIN })[off % 4],
+        _ => {
+            if err {
+                0xFE
+            } else {
+                0xFF
+            }
+        }
+    }
+}
+
+#[derive(Clone, Debug)]
+enum Tok {
+    Sleep(u64),
+    Write { err: bool, n: usize, k: u8 },
+    SigpipeDefault,
+    Exit(i32),
+    KillSelf,
+    Hang,
+}
+
+fn parse_tok(t: &str) -> Option<Tok> {
+    let b = t.as_bytes();
+    match *b.first()? {
+        b's' => Some(Tok::Sleep(t[1..].parse().ok()?)),
+        b'o' | b'e' => {
+            let k = *b.last()?;
+            if !matches!(k, b'a' | b'm' | b'g' | b'x') {
+                return None;
+            }
+            Some(Tok::Write { err: b[0] == b'e', n: t[1..t.len() - 1].parse().ok()?, k })
+        }
+        b'p' if t.len() == 1 => Some(Tok::SigpipeDefault),
+        b'x' => Some(Tok::Exit(t[1..].parse().ok()?)),
+        b'k' if t.len() == 1 => Some(Tok::KillSelf),
+        b'h' if t.len() == 1 => Some(Tok::Hang),
+        _ => None,
+    }
+}
+
+/// The bytes the script writes to each stream.
+fn plan_bytes(toks: &[Tok]) -> (Vec<u8>, Vec<u8>) {
+    let (mut o, mut e) = (Vec::new(), Vec::new());
+    for t in toks {
+        if let Tok::Write { err, n, k } = *t {
+            let v = if err { &mut e } else { &mut o };
+            for _ in 0..n {
+                let off = v.len();
+                v.push(pat_byte(err, k, off));
+            }
+        }
+    }
+    (o, e)
+}
+
+// ------------------------------------------------------------------------------------------------
+// the helper child
+
+fn write_all_fd(fd: i32, mut buf: &[u8]) -> bool {
+    while !buf.is_empty() {
+        let n = unsafe { libc::write(fd, buf.as_ptr().cast(), buf.len()) };
+        if n < 0 {
+            let e = std::io::Error::last_os_error();
+            if e.kind() == std::io::ErrorKind::Interrupted {
+                continue;
+            }
+            return false; // EPIPE: give up on these bytes, carry on with the script
+        }
+        buf = &buf[n as usize..];
+    }
+    true
+}
+
+fn child(args: &[String]) -> i32 {
+    let mut us = 0u64;
+    let mut toks = Vec::new();
+    for a in args {
+        if let Some(p) = a.strip_prefix("pidfile=") {
+            // write-then-rename so that a reader never sees a partial file
+            let tmp = format!("{p}.tmp");
+            if let Ok(mut f) = File::create(&tmp) {
+                let _ = write!(f, "{}", std::process::id());
+                drop(f);
+                let _ = std::fs::rename(&tmp, p);
+            }
+        } else if let Some(v) = a.strip_prefix("us=") {
+            us = v.parse().unwrap_or(0);
+        } else if let Some(v) = a.strip_prefix("cpu=") {
+            // leave the contended core the runner's threads are pinned to
+            if v == "free" {
+                unsafe {
+                    let mut set: libc::cpu_set_t = std::mem::zeroed();
+                    for c in 0..(libc::CPU_SETSIZE as usize).min(256) {
+                        libc::CPU_SET(c, &mut set);
+                    }
+                    libc::sched_setaffinity(0, std::mem::size_of::<libc::cpu_set_t>(), &set);
+                }
+            }
+        } else if let Some(t) = parse_tok(a) {
+            toks.push(t);
+        } else {
+            return 97;
+        }
+    }
+    let (mut off_o, mut off_e) = (0usize, 0usize);
+    for t in &toks {
+        match *t {
+            Tok::Sleep(ms) => std::thread::sleep(Duration::from_millis(ms)),
+            Tok::Write { err, n, k } => {
+                if us > 0 {
+                    std::thread::sleep(Duration::from_micros(us));
+                }
+                let off = if err { &mut off_e } else { &mut off_o };
+                let buf: Vec<u8> = (0..n).map(|i| pat_byte(err, k, *off + i)).collect();
+                *off += n;
+                let _ = write_all_fd(if err { 2 } else { 1 }, &buf);
+            }
+            Tok::SigpipeDefault => unsafe {
+                libc::signal(libc::SIGPIPE, libc::SIG_DFL);
+            },
+            Tok::Exit(c) => unsafe { libc::_exit(c) },
+            Tok::KillSelf => unsafe {
+                libc::kill(libc::getpid(), libc::SIGKILL);
+                libc::pause();
+            },
+            Tok::Hang => loop {
+                std::thread::sleep(Duration::from_secs(3600));
+            },
+        }
+    }
+    0
+}
+
+// ------------------------------------------------------------------------------------------------
+// running scenarios
+
+#[derive(Clone, Debug)]
+struct Scenario {
+    cap: u32,
+    poll: u32,
+    timeout: u32,
+    out: OutputPolicy,
+    err: OutputPolicy,
+    reps: u32,
+    hogs: u32,
+    toks: Vec<Tok>,
+    raw_toks: Vec<String>,
+}
+
+fn pol(s: &str) -> Option<OutputPolicy> {
+    match s {
+        "c" => Some(OutputPolicy::Capture),
+        "n" => Some(OutputPolicy::Null),
+        "i" => Some(OutputPolicy::Inherit),
+        _ => None,
+    }
+}
+
+fn parse_scenario(line: &str) -> Option<Scenario> {
+    let mut it = line.split_whitespace();
+    if it.next()? != "sc" {
+        return None;
+    }
+    let mut sc = Scenario {
+        cap: 0,
+        poll: 10,
+        timeout: 20_000,
+        out: OutputPolicy::Capture,
+        err: OutputPolicy::Capture,
+        reps: 1,
+        hogs: 0,
+        toks: Vec::new(),
+        raw_toks: Vec::new(),
+    };
+    let mut in_child = false;
+    for w in it {
+        if in_child {
+            sc.toks.push(parse_tok(w)?);
+            sc.raw_toks.push(w.to_string());
+        } else if w == "|" {
+            in_child = true;
+        } else {
+            let (k, v) = w.split_once('=')?;
+            match k {
+                "cap" => sc.cap = v.parse().ok()?,
+                "poll" => sc.poll = v.parse().ok()?,
+                "timeout" => sc.timeout = v.parse().ok()?,
+                "out" => sc.out = pol(v)?,
+                "err" => sc.err = pol(v)?,
+                "reps" => sc.reps = v.parse().ok()?,
+                "hogs" => sc.hogs = v.parse().ok()?,
+                "fixed" => {} // model-side switch (which join_capture is modelled); ignored here
+                _ => return None,
+            }
+        }
+    }
+    Some(sc)
+}
+
+fn stream_name(s: ProcessStream) -> &'static str {
+    match s {
+        ProcessStream::Stdout => "out",
+        ProcessStream::Stderr => "err",
+    }
+}
+
+fn describe(got: Option<&str>, want: &[u8]) -> String {
+    match got {
+        None => "null".to_string(),
+        Some(s) if s.as_bytes() == want => "full".to_string(),
+        Some(s) if want.starts_with(s.as_bytes()) => format!("trunc{}", s.len()),
+        Some(s) => format!("other{}", s.len()),
+    }
+}
+
+static PID_SEQ: AtomicUsize = AtomicUsize::new(0);
+
+fn pid_state(pid: i32) -> &'static str {
+    let r = unsafe { libc::kill(pid, 0) };
+    if r != 0 {
+        return "gone";
+    }
+    match std::fs::read_to_string(format!("/proc/{pid}/stat")) {
+        Ok(s) => {
+            // "pid (comm) S ..."
+            match s.rsplit_once(')').and_then(|(_, r)| r.trim_start().chars().next()) {
+                Some('Z') => "zombie",
+                _ => "running",
+            }
+        }
+        Err(_) => "gone",
+    }
+}
+
+struct RepResult {
+    outcome: String,
+    pid: &'static str,
+    oracle: Vec<String>,
+}
+
+/// One repetition: the real runner against the helper child. Runs on its own thread so that a run
+/// that never returns is detected (the child is then killed through its pid to release the thread).
+fn run_rep(sc: &Scenario, rep: u32, tmpdir: &str, exe: &str) -> RepResult {
+    let (plan_o, plan_e) = plan_bytes(&sc.toks);
+    let pidfile = format!("{tmpdir}/{}.pid", PID_SEQ.fetch_add(1, Ordering::Relaxed));
+    let _ = std::fs::remove_file(&pidfile);
+    let us = (u64::from(rep) * 137) % 1500;
+    let mut argv: Vec<String> = vec![
+        "capture".into(),
+        "child".into(),
+        format!("pidfile={pidfile}"),
+        format!("us={us}"),
+    ];
+    if sc.hogs > 0 {
+        argv.push("cpu=free".into());
+    }
+    argv.extend(sc.raw_toks.iter().cloned());
+
+    let (tx, rx) = mpsc::channel();
+    let sc2 = sc.clone();
+    let exe2 = exe.to_string();
+    let hogs_stop = Arc::new(AtomicBool::new(false));
+    let hs = Arc::clone(&hogs_stop);
+    let worker = std::thread::spawn(move || {
+        // Optional scheduling pressure: pin this thread (the runner's reader threads inherit the
+        // mask) to one core and keep that core busy, so that the reader threads and the polling
+        // waiter are delayed by whole time slices relative to the child.
+        let mut hog_handles = Vec::new();
+        if sc2.hogs > 0 {
+            unsafe {
+                let cpu = libc::sched_getcpu().max(0) as usize;
+                let mut set: libc::cpu_set_t = std::mem::zeroed();
+                libc::CPU_SET(cpu, &mut set);
+                libc::sched_setaffinity(0, std::mem::size_of::<libc::cpu_set_t>(), &set);
+            }
+            for _ in 0..sc2.hogs {
+                let stop = Arc::clone(&hs);
+                hog_handles.push(std::thread::spawn(move || {
+                    let mut x = 0u64;
+                    while !stop.load(Ordering::Relaxed) {
+                        for _ in 0..2000 {
+                            x = x.wrapping_mul(6364136223846793005).wrapping_add(1);
+                        }
+                        std::hint::black_box(x);
+                    }
+                }));
+            }
+        }
+        let r = util::catch(|| {
+            let arena = Arena::new(8 << 20).expect("arena");
+            let args: Vec<ArenaString<'_>> =
+                argv.iter().map(|a| ArenaString::from_str(&arena, a)).collect();
+            let stdin = StdinPolicy::Null;
+            let spec = ProcessSpec {
+                program: &exe2,
+                args: &args,
+                cwd: None,
+                env: &[],
+                stdin: &stdin,
+                stdout: sc2.out,
+                stderr: sc2.err,
+                timeout_ms: sc2.timeout,
+            };
+            let mut caps = ProcessCaps::defaults();
+            caps.max_capture_bytes_per_stream = sc2.cap;
+            caps.wait_poll_ms = sc2.poll;
+            match <sys::process as ProcessRunner>::run(&spec, &caps, &arena) {
+                Ok(r) => Ok((
+                    r.success,
+                    r.exit_code,
+                    r.stdout.as_ref().map(|s| s.as_str().to_string()),
+                    r.stderr.as_ref().map(|s| s.as_str().to_string()),
+                )),
+                Err(e) => Err(match e {
+                    ProcessError::OutputLimitExceeded(s) => format!("ole:{}", stream_name(s)),
+                    ProcessError::InvalidUtf8(s) => format!("badutf8:{}", stream_name(s)),
+                    ProcessError::Timeout => "timeout".to_string(),
+                    ProcessError::SpawnFailed(_) => "spawnfail".to_string(),
+                    other => format!("other-error:{other:?}").replace(' ', "_"),
+                }),
+            }
+        });
+        hs.store(true, Ordering::Relaxed);
+        for h in hog_handles {
+            let _ = h.join();
+        }
+        let _ = tx.send(r);
+    });
+
+    let read_pid = || -> Option<i32> { std::fs::read_to_string(&pidfile).ok()?.trim().parse().ok() };
+    // generous wall limit: the scenario's own timeout plus its sleeps plus slack
+    let sleeps: u64 = sc.toks.iter().map(|t| if let Tok::Sleep(ms) = t { *ms } else { 0 }).sum();
+    let limit = Duration::from_millis(u64::from(sc.timeout) + sleeps + 8_000);
+    let mut oracle = Vec::new();
+    let res = match rx.recv_timeout(limit) {
+        Ok(r) => {
+            let _ = worker.join();
+            Some(r)
+        }
+        Err(_) => {
+            hogs_stop.store(true, Ordering::Relaxed);
+            // release the stuck runner: kill the child ourselves
+            if let Some(pid) = read_pid() {
+                unsafe {
+                    libc::kill(pid, libc::SIGKILL);
+                }
+            }
+            let _ = rx.recv_timeout(Duration::from_secs(10));
+            None
+        }
+    };
+    let planned_code: Option<Option<i32>> = sc.toks.iter().find_map(|t| match t {
+        Tok::Exit(c) => Some(Some(*c & 0xff)),
+        Tok::KillSelf => Some(None),
+        Tok::Hang => Some(None),
+        _ => None,
+    });
+    let outcome = match res {
+        None => {
+            oracle.push("the run did not return (runner stuck)".to_string());
+            "stuck".to_string()
+        }
+        Some(Err(_panic)) => "panic".to_string(),
+        Some(Ok(Err(e))) => e,
+        Some(Ok(Ok((success, code, so, se)))) => {
+            let d_o = describe(so.as_deref(), &plan_o);
+            let d_e = describe(se.as_deref(), &plan_e);
+            for (name, d, got, policy) in
+                [("stdout", &d_o, &so, sc.out), ("stderr", &d_e, &se, sc.err)]
+            {
+                let captured = policy == OutputPolicy::Capture;
+                if captured && d != "full" {
+                    oracle.push(format!(
+                        "ok result but captured {name} is not what the child was told to write ({d})"
+                    ));
+                }
+                if !captured && got.is_some() {
+                    oracle.push(format!("uncaptured {name} is not null"));
+                }
+                if let Some(g) = got
+                    && g.len() > sc.cap as usize
+                {
+                    oracle.push(format!("captured {name} has {} bytes, cap {}", g.len(), sc.cap));
+                }
+            }
+            if success != (code == Some(0)) {
+                oracle.push("success flag disagrees with exit code".to_string());
+            }
+            let hangs = sc.toks.iter().any(|t| matches!(t, Tok::Hang));
+            if hangs {
+                oracle.push("ok result for a child that never exits".to_string());
+            } else if let Some(pc) = planned_code
+                && pc != code
+            {
+                oracle.push(format!("exit code {code:?}, planned {pc:?}"));
+            }
+            let c = code.map_or("sig".to_string(), |c| c.to_string());
+            format!("ok:{c}:{d_o}:{d_e}")
+        }
+    };
+    // the child must be gone: neither running nor a zombie
+    let pid = match read_pid() {
+        Some(pid) => {
+            let st = pid_state(pid);
+            if st != "gone" && outcome != "stuck" {
+                oracle.push(format!("child still present after the run ({st})"));
+                // clean up after a runner that leaks children
+                unsafe {
+                    libc::kill(pid, libc::SIGKILL);
+                }
+            }
+            st
+        }
+        None => "unknown",
+    };
+    let _ = std::fs::remove_file(&pidfile);
+    RepResult { outcome, pid, oracle }
+}
+
+fn utf8_answer(hexs: &str) -> String {
+    match util::unhex(hexs) {
+        Some(b) => (if std::str::from_utf8(&b).is_ok() { "valid" } else { "invalid" }).to_string(),
+        None => "bad-op".to_string(),
+    }
+}
+
+fn run(args: &[String]) -> i32 {
+    let jobs = util::opt_u64(args, "--jobs", 6).max(1) as usize;
+    let lines = util::stdin_lines();
+    // Answers go to the original stdout / stderr; fds 1 and 2 are then pointed at /dev/null so that
+    // children with an *inherited* stream cannot write into the protocol.
+    let (mut ans, mut diag) = unsafe {
+        let a = libc::dup(1);
+        let d = libc::dup(2);
+        let null = libc::open(c"/dev/null".as_ptr(), libc::O_WRONLY);
+        libc::dup2(null, 1);
+        libc::dup2(null, 2);
+        libc::close(null);
+        (File::from_raw_fd(a), File::from_raw_fd(d))
+    };
+    util::silence_panics();
+    let exe = std::env::current_exe().expect("current_exe").to_string_lossy().to_string();
+    let tmpdir = format!(
+        "{}/capture-{}",
+        std::env::var("NV_TMP").unwrap_or_else(|_| std::env::temp_dir().to_string_lossy().to_string()),
+        std::process::id()
+    );
+    let _ = std::fs::create_dir_all(&tmpdir);
+
+    let n = lines.len();
+    let next = Arc::new(AtomicUsize::new(0));
+    let results: Arc<Mutex<Vec<Option<(String, Vec<String>)>>>> = Arc::new(Mutex::new(vec![None; n]));
+    let lines = Arc::new(lines);
+    let mut handles = Vec::new();
+    for _ in 0..jobs {
+        let (next, results, lines, tmpdir, exe) =
+            (Arc::clone(&next), Arc::clone(&results), Arc::clone(&lines), tmpdir.clone(), exe.clone());
+        handles.push(std::thread::spawn(move || {
+            loop {
+                let i = next.fetch_add(1, Ordering::Relaxed);
+                if i >= lines.len() {
+                    break;
+                }
+                let line = lines[i].trim();
+                let mut oracle = Vec::new();
+                let answer = if let Some(h) = line.strip_prefix("utf8 ") {
+                    utf8_answer(h.trim())
+                } else if let Some(sc) = parse_scenario(line) {
+                    let mut outs: BTreeMap<String, u32> = BTreeMap::new();
+                    let mut pids: BTreeMap<&'static str, u32> = BTreeMap::new();
+                    for rep in 0..sc.reps.max(1) {
+                        let r = run_rep(&sc, rep, &tmpdir, &exe);
+                        let stuck = r.outcome == "stuck";
+                        *outs.entry(r.outcome).or_insert(0) += 1;
+                        *pids.entry(r.pid).or_insert(0) += 1;
+                        for o in r.oracle {
+                            if !oracle.contains(&o) {
+                                oracle.push(o);
+                            }
+                        }
+                        if stuck {
+                            break; // every further repetition would cost the full wall limit again
+                        }
+                    }
+                    let o: Vec<String> = outs.iter().map(|(k, v)| format!("{k}*{v}")).collect();
+                    let p: Vec<String> = pids.iter().map(|(k, v)| format!("{k}*{v}")).collect();
+                    format!("obs {} | pid {}", o.join(" "), p.join(" "))
+                } else {
+                    "bad-op".to_string()
+                };
+                results.lock().unwrap()[i] = Some((answer, oracle));
+            }
+        }));
+    }
+    for h in handles {
+        let _ = h.join();
+    }
+    let results = results.lock().unwrap();
+    for (i, r) in results.iter().enumerate() {
+        let (a, o) = r.clone().unwrap_or(("panic".to_string(), Vec::new()));
+        let _ = writeln!(ans, "{a}");
+        for what in o {
+            let _ = writeln!(diag, "ORACLE-FAIL {} {}", i + 1, what);
+        }
+    }
+    let _ = ans.flush();
+    let _ = std::fs::remove_dir_all(&tmpdir);
+    0
+}
+
+// ------------------------------------------------------------------------------------------------
+// generator
+
+const POLS: [&str; 3] = ["c", "n", "i"];
+const CODES: [i32; 7] = [0, 0, 1, 2, 3, 42, 255];
+
+fn around(rng: &mut Rng, cap: u32) -> u32 {
+    // sizes around the cap, with the boundary itself the most likely
+    let c = i64::from(cap);
+    let v = match rng.below(12) {
+        0 => 0,
+        1 => c / 2,
+        2 => c - 1,
+        3 | 4 => c,
+        5 | 6 => c + 1,
+        7 => c + 2,
+        8 => c + 3,
+        9 => c * 2 + 1,
+        10 => c + 8192,
+        _ => c + 8193,
+    };
+    v.max(0) as u32
+}
+
+/// Split `n` bytes of one stream into 1..=3 write tokens (a cut can fall inside a character).
+fn writes(rng: &mut Rng, letter: char, n: u32, k: char) -> Vec<String> {
+    if n == 0 {
+        return if rng.chance(1, 2) { vec![] } else { vec![format!("{letter}0{k}")] };
+    }
+    let parts = 1 + rng.below(3) as u32;
+    let mut cuts: Vec<u32> = (0..parts - 1).map(|_| rng.below(u64::from(n) + 1) as u32).collect();
+    cuts.push(0);
+    cuts.push(n);
+    cuts.sort_unstable();
+    cuts.windows(2).filter(|w| w[1] > w[0]).map(|w| format!("{letter}{}{k}", w[1] - w[0])).collect()
+}
+
+fn sleep_tok(rng: &mut Rng) -> Option<String> {
+    match rng.below(6) {
+        0 => Some("s1".into()),
+        1 => Some(format!("s{}", 2 + rng.below(12))),
+        2 => Some(format!("s{}", 15 + rng.below(25))),
+        _ => None,
+    }
+}
+
+fn generate(args: &[String]) -> i32 {
+    let seed = util::opt_u64(args, "--seed", 1);
+    let n = util::opt_u64(args, "--n", 150);
+    let mode = util::opt(args, "--mode").unwrap_or("mix").to_string();
+    let reps_default = util::opt_u64(args, "--reps", 3);
+    let hogs_opt = util::opt_u64(args, "--hogs", 0);
+    let mut rng = Rng::new(seed ^ 0xC16);
+    let mut out = util::Out::new();
+    if mode == "utf8" {
+        gen_utf8(&mut rng, n, &mut out);
+        return 0;
+    }
+    for i in 0..n {
+        let caps: &[u32] = &[0, 1, 3, 4, 5, 16, 100, 999, 4096, 8191, 8192, 8193, 20_000, 70_000];
+        let mut cap = *rng.pick(caps);
+        let poll = *rng.pick(&[1u32, 1, 2, 5, 10]);
+        // all nine policy combinations, in rotation, so that every one is hit in every run
+        let (mut po, mut pe) = (POLS[(i % 3) as usize], POLS[((i / 3) % 3) as usize]);
+        if mode != "mix" || rng.chance(1, 3) {
+            (po, pe) = ("c", "c");
+        }
+        let mut kinds = ['a', 'a', 'm', 'm', 'g', 'x'];
+        let (mut ko, mut ke) = (*rng.pick(&kinds), *rng.pick(&kinds));
+        let shape = if mode == "d16" {
+            2
+        } else if mode == "race" {
+            7
+        } else {
+            rng.below(10)
+        };
+        let (mut no, mut ne);
+        let mut hang = false;
+        let mut timeout = 20_000u32;
+        let mut reps = reps_default;
+        let mut hogs = hogs_opt;
+        match shape {
+            0 | 1 => {
+                // one stream around the cap, the other small
+                no = around(&mut rng, cap);
+                ne = rng.below(u64::from(cap.min(40)) + 1) as u32;
+                if shape == 1 {
+                    std::mem::swap(&mut no, &mut ne);
+                }
+            }
+            2 => {
+                // both streams over the cap, multi-byte text: the D-16 shape
+                if cap > 8193 {
+                    cap = *rng.pick(&[4u32, 5, 16, 100, 999, 4096]);
+                }
+                kinds = ['m', 'm', 'm', 'g', 'g', 'a'];
+                ko = *rng.pick(&kinds);
+                ke = *rng.pick(&kinds);
+                no = cap + 1 + rng.below(8) as u32;
+                ne = cap + 1 + rng.below(8) as u32;
+            }
+            3 => {
+                // both around the cap
+                no = around(&mut rng, cap);
+                ne = around(&mut rng, cap);
+            }
+            4 => {
+                // hang: after some, none or too much output
+                hang = true;
+                timeout = 200 + rng.below(101) as u32;
+                no = if rng.chance(1, 3) { around(&mut rng, cap) } else { rng.below(20) as u32 };
+                ne = if rng.chance(1, 4) { around(&mut rng, cap) } else { rng.below(20) as u32 };
+                reps = reps.min(2);
+            }
+            5 => {
+                // small, valid or invalid UTF-8 well below the cap
+                cap = cap.max(100);
+                no = rng.below(60) as u32;
+                ne = rng.below(60) as u32;
+            }
+            6 => {
+                // larger than a pipe: the child blocks until the reader drains
+                cap = *rng.pick(&[70_000u32, 100_000, 140_000]);
+                no = *rng.pick(&[cap - 1, cap, cap + 1, 66_000, cap + 9000]);
+                ne = if rng.chance(1, 3) { *rng.pick(&[cap, cap + 1, 66_000]) } else { rng.below(50) as u32 };
+                ko = *rng.pick(&['a', 'm']);
+                ke = *rng.pick(&['a', 'm']);
+                reps = reps.min(2);
+            }
+            7 => {
+                // exit immediately after crossing the cap: the post-exit re-check of the flag
+                if cap > 8193 {
+                    cap = *rng.pick(&[4u32, 16, 100, 4096]);
+                }
+                no = cap + 1 + rng.below(3) as u32;
+                ne = if rng.chance(1, 2) { cap + 1 } else { 0 };
+                if rng.chance(1, 2) {
+                    std::mem::swap(&mut no, &mut ne);
+                }
+                if mode == "race" && hogs == 0 {
+                    hogs = 2;
+                }
+            }
+            _ => {
+                no = rng.below(u64::from(cap) + 10) as u32;
+                ne = rng.below(u64::from(cap) + 10) as u32;
+            }
+        }
+        if po != "c" {
+            no = no.min(5000);
+        }
+        if pe != "c" {
+            ne = ne.min(5000);
+        }
+        // the script
+        let mut toks: Vec<String> = Vec::new();
+        if rng.chance(1, 12) {
+            toks.push("p".into());
+        }
+        if let Some(s) = sleep_tok(&mut rng) {
+            toks.push(s);
+        }
+        let wo = writes(&mut rng, 'o', no, ko);
+        let we = writes(&mut rng, 'e', ne, ke);
+        // interleave the two streams' writes in a random order, sleeps in between
+        let (mut io, mut ie) = (0, 0);
+        while io < wo.len() || ie < we.len() {
+            let take_o = ie >= we.len() || (io < wo.len() && rng.chance(1, 2));
+            if take_o {
+                toks.push(wo[io].clone());
+                io += 1;
+            } else {
+                toks.push(we[ie].clone());
+                ie += 1;
+            }
+            if shape != 7
+                && let Some(s) = sleep_tok(&mut rng)
+            {
+                toks.push(s);
+            }
+        }
+        if hang {
+            toks.push("h".into());
+        } else if rng.chance(1, 14) {
+            toks.push("k".into());
+        } else {
+            toks.push(format!("x{}", rng.pick(&CODES)));
+        }
+        out.line(&format!(
+            "sc cap={cap} poll={poll} timeout={timeout} out={po} err={pe} reps={reps} hogs={hogs} | {}",
+            toks.join(" ")
+        ));
+    }
+    0
+}
+
+/// Byte strings for the `utf8` sub-stream: valid text, every boundary of the well-formedness
+/// table, truncations and single-byte mutations.
+fn gen_utf8(rng: &mut Rng, n: u64, out: &mut util::Out) {
+    let seeds: &[&[u8]] = &[
+        b"",
+        b"a",
+        &[0x7f],
+        &[0x80],
+        &[0xbf],
+        &[0xc0, 0x80],
+        &[0xc1, 0xbf],
+        &[0xc2, 0x80],
+        &[0xc2, 0x7f],
+        &[0xdf, 0xbf],
+        &[0xdf, 0xc0],
+        &[0xe0, 0x9f, 0xbf],
+        &[0xe0, 0xa0, 0x80],
+        &[0xe1, 0x80, 0x80],
+        &[0xec, 0xbf, 0xbf],
+        &[0xed, 0x9f, 0xbf],
+        &[0xed, 0xa0, 0x80],
+        &[0xee, 0x80, 0x80],
+        &[0xef, 0xbf, 0xbf],
+        &[0xf0, 0x8f, 0xbf, 0xbf],
+        &[0xf0, 0x90, 0x80, 0x80],
+        &[0xf1, 0x80, 0x80, 0x80],
+        &[0xf3, 0xbf, 0xbf, 0xbf],
+        &[0xf4, 0x8f, 0xbf, 0xbf],
+        &[0xf4, 0x90, 0x80, 0x80],
+        &[0xf5, 0x80, 0x80, 0x80],
+        &[0xff],
+        &[0xfe],
+        &[0xe2, 0x82],
+        &[0xe2, 0x82, 0xac, 0xe2],
+        &[0xf0, 0x9f, 0x98],
+    ];
+    for s in seeds {
+        out.line(&format!("utf8 {}", util::hex(s)));
+    }
+    let text = "aé€😀ß中\u{7ff}\u{800}\u{ffff}\u{10000}\u{10ffff}z".as_bytes();
+    for _ in 0..n {
+        let mut v: Vec<u8> = Vec::new();
+        let parts = 1 + rng.below(4);
+        for _ in 0..parts {
+            match rng.below(4) {
+                0 => v.extend_from_slice(*rng.pick(seeds)),
+                1 => {
+                    let a = rng.below(text.len() as u64) as usize;
+                    let b = a + rng.below((text.len() - a) as u64 + 1) as usize;
+                    v.extend_from_slice(&text[a..b]);
+                }
+                2 => v.extend_from_slice(text),
+                _ => v.push(rng.below(256) as u8),
+            }
+        }
+        if !v.is_empty() && rng.chance(1, 3) {
+            let i = rng.below(v.len() as u64) as usize;
+            v[i] = rng.below(256) as u8;
+        }
+        if !v.is_empty() && rng.chance(1, 4) {
+            let k = rng.below(v.len() as u64) as usize;
+            v.truncate(k);
+        }
+        out.line(&format!("utf8 {}", util::hex(&v)));
+    }
+}
